@@ -44,11 +44,18 @@ type Case struct {
 	// KeyEnc (auth key/both): the key file is protected by a passphrase and the configured
 	// passphrase is the right one ("right") or another one ("wrong")
 	KeyEnc string `json:"key_enc,omitempty"`
+	// ByName (not with V6): the driver is pointed at the name "localhost" (the server listens on
+	// 127.0.0.1): the known-hosts entries that count are those of the configured name
+	ByName bool `json:"by_name,omitempty"`
+	// RewriteSame (with Rewrite): the connection after the rewrite is a re-open of the same driver
+	RewriteSame bool `json:"rewrite_same,omitempty"`
 	// V6: the server listens on, and the driver is pointed at, the IPv6 loopback address ::1
 	V6 bool `json:"v6,omitempty"`
 }
 
-var khKinds = []string{"pq-right", "pq-wrong", "bare-right", "bare-wrong", "hashed-pq-right", "hashed-pq-wrong", "otherhost-right", "comment", "garbage"}
+// (addr-right: the right key on record for the server's address; counts as an entry of another
+// host when the driver is pointed at a name)
+var khKinds = []string{"pq-right", "pq-wrong", "bare-right", "bare-wrong", "hashed-pq-right", "hashed-pq-wrong", "otherhost-right", "comment", "garbage", "addr-right"}
 
 // khExpect: "ok" (must connect), "fail" (must not), "" (the two ssh implementations legitimately
 // differ: first-entry-wins vs any-entry, and the fallback from port-qualified to bare names).
@@ -94,6 +101,8 @@ func gen(t *rapid.T) Case {
 
 	c.Netconf = rapid.IntRange(0, 2).Draw(t, "netconf") == 0
 	c.Rewrite = rapid.Bool().Draw(t, "rewrite")
+	c.RewriteSame = rapid.Bool().Draw(t, "rewriteSame")
+	c.ByName = !c.V6 && rapid.IntRange(0, 2).Draw(t, "byName") == 0
 
 	if c.Auth != "password" {
 		c.KeyEnc = rapid.SampledFrom([]string{"", "", "right", "wrong"}).Draw(t, "keyEnc")
@@ -106,7 +115,7 @@ func genBase(t *rapid.T) Case {
 	return Case{
 		Transport:  rapid.SampledFrom([]string{"system", "standard"}).Draw(t, "transport"),
 		NoStrict:   rapid.Bool().Draw(t, "noStrict"),
-		KnownHosts: rapid.SampledFrom([]string{"has", "other", "empty", "none", "list", "list"}).Draw(t, "knownHosts"),
+		KnownHosts: rapid.SampledFrom([]string{"has", "other", "empty", "none", "list", "list", "missing"}).Draw(t, "knownHosts"),
 		Auth:       rapid.SampledFrom([]string{"password", "key", "both"}).Draw(t, "auth"),
 		User:       "u" + rapid.StringMatching(`[a-zA-Z0-9._\-]{2,8}`).Draw(t, "user"),
 		Password:   "Pw-" + rapid.StringMatching(`[a-zA-Z0-9]{6,12}`).Draw(t, "password"),
@@ -134,6 +143,12 @@ func run(c Case) ev.Verdict {
 	host := "127.0.0.1"
 	if c.V6 {
 		host = "::1"
+	}
+
+	// name: what the driver is pointed at (and what known-hosts entries are looked up by)
+	name := host
+	if c.ByName && !c.V6 {
+		name = "localhost"
 	}
 
 	srv, err := sim.NewSSHServerOn(host)
@@ -192,8 +207,8 @@ func run(c Case) ev.Verdict {
 	khPath := filepath.Join(dir, "known_hosts")
 
 	switch c.KnownHosts {
-	case "has":
-		_ = os.WriteFile(khPath, []byte(srv.KnownHostsLine()+"\n"), 0o600)
+	case "has", "missing":
+		_ = os.WriteFile(khPath, []byte(strings.Replace(srv.KnownHostsLine(), "["+host+"]", "["+name+"]", 1)+"\n"), 0o600)
 	case "other":
 		other, oerr := sim.NewSSHServerOn(host)
 		if oerr != nil {
@@ -201,6 +216,7 @@ func run(c Case) ev.Verdict {
 		}
 
 		line := strings.Replace(other.KnownHostsLine(), fmt.Sprintf(":%d ", other.Port), fmt.Sprintf(":%d ", srv.Port), 1)
+		line = strings.Replace(line, "["+host+"]", "["+name+"]", 1)
 		other.Close()
 
 		_ = os.WriteFile(khPath, []byte(line+"\n"), 0o600)
@@ -214,7 +230,7 @@ func run(c Case) ev.Verdict {
 
 		right := strings.TrimSpace(string(ssh.MarshalAuthorizedKey(srv.HostKey.PublicKey())))
 		wrong := strings.TrimSpace(string(ssh.MarshalAuthorizedKey(otherPub)))
-		pq := fmt.Sprintf("[%s]:%d", host, srv.Port)
+		pq := fmt.Sprintf("[%s]:%d", name, srv.Port)
 
 		var sb strings.Builder
 
@@ -230,11 +246,15 @@ func run(c Case) ev.Verdict {
 			case strings.HasPrefix(e, "pq-"):
 				sb.WriteString(pq + " " + key + "\n")
 			case strings.HasPrefix(e, "bare-"):
-				sb.WriteString(host + " " + key + "\n")
+				sb.WriteString(name + " " + key + "\n")
 			case strings.HasPrefix(e, "hashed-pq-"):
 				sb.WriteString(knownhosts.HashHostname(pq) + " " + key + "\n")
 			case strings.HasPrefix(e, "otherhost-"):
 				sb.WriteString(fmt.Sprintf("[10.9.8.7]:%d %s\n", srv.Port, key))
+			case e == "addr-right" && name != host:
+				sb.WriteString(fmt.Sprintf("[%s]:%d %s\n", host, srv.Port, key))
+			case e == "addr-right":
+				sb.WriteString(fmt.Sprintf("[10.9.8.6]:%d %s\n", srv.Port, key))
 			case e == "garbage":
 				sb.WriteString("damaged-entry-without-a-key\n")
 			}
@@ -283,7 +303,7 @@ func run(c Case) ev.Verdict {
 
 	newSession := func() (*session, error) {
 		if c.Netconf {
-			nd, nerr := netconf.NewDriver(host, opts...)
+			nd, nerr := netconf.NewDriver(name, opts...)
 			if nerr != nil {
 				return nil, nerr
 			}
@@ -291,7 +311,7 @@ func run(c Case) ev.Verdict {
 			return &session{open: nd.Open, close: nd.Close}, nil
 		}
 
-		gd, gerr := generic.NewDriver(host, opts...)
+		gd, gerr := generic.NewDriver(name, opts...)
 		if gerr != nil {
 			return nil, gerr
 		}
@@ -312,6 +332,11 @@ func run(c Case) ev.Verdict {
 	}
 
 	wantOK := c.NoStrict || c.KnownHosts == "has"
+
+	if c.KnownHosts == "missing" {
+		// the configured file is gone by the time the connection is made
+		_ = os.Remove(khPath)
+	}
 	eitherWay := false
 
 	if c.KnownHosts == "list" && !c.NoStrict {
@@ -420,9 +445,13 @@ func run(c Case) ev.Verdict {
 		_, otherPub, kerr := sim.GenClientKey()
 		if kerr == nil {
 			wrong := strings.TrimSpace(string(ssh.MarshalAuthorizedKey(otherPub)))
-			_ = os.WriteFile(khPath, []byte(fmt.Sprintf("[%s]:%d %s\n", host, srv.Port, wrong)), 0o600)
+			_ = os.WriteFile(khPath, []byte(fmt.Sprintf("[%s]:%d %s\n", name, srv.Port, wrong)), 0o600)
 
-			d2, derr := newSession()
+			d2, derr := d, error(nil)
+			if !c.RewriteSame {
+				d2, derr = newSession()
+			}
+
 			if derr != nil {
 				return ev.Fail("second NewDriver: %v", derr)
 			}
